@@ -26,7 +26,7 @@ fields of `Key`, before byte encoding) and value. Decided:
  m8  `build_query_options`: prefix = table byte of the searched script kind ++ raw searched script; start key, direction and skip for ascending / descending order with and
      without a cursor.
 
-Outside: the byte encodings of keys and values (`From<Key> for Vec<u8>`, `parse_cell_value`; modelled as injective records), filter combinations, the pool overlay of get_cells / get_cells_capacity, custom filters, prune, the pool, the rich indexer (SQL).
+Outside: the byte encodings of keys and values (`From<Key> for Vec<u8>`, `parse_cell_value`; modelled as injective records),  custom filters, prune, the pool, the rich indexer (SQL).
 """
 import os
 import re
@@ -422,10 +422,10 @@ EXPLANATION = ("Indexer::append and Indexer::rollback are executed symbolically 
 BOUNDS = {"scenarios": "5 block shapes (cellbase only; spending an untyped / typed cell of an earlier block; a cell created and spent inside the block; an input unknown to the index), <= 3 transactions, <= 2 inputs/outputs",
           "query": "get_transactions: 2 rows following the start key, limit 1 and 2, Lock/Type search, grouped/ungrouped, exact/prefix mode, script filter present, block range present or not",
           "query_capacity": "get_cells_capacity: 2 rows, Lock/Type search, one filter at a time (9 kinds), exact and prefix mode, newest header row present or not",
-          "query_cells": "get_cells: 2 rows following the start key, Lock/Type search, one filter at a time (9 kinds incl. none), exact mode limit 2 (limit 1 for two filters), prefix mode, with and without data; no pool attached",
+          "query_cells": "get_cells: 2 rows following the start key, Lock/Type search, one filter at a time (9 kinds incl. none), exact mode limit 2 (limit 1 for two filters), prefix mode, with and without data; with a pool attached (cells consumed by pool transactions are hidden); one row with ALL filters and the pool at once",
           "query_options": "FilterOptions conversion: 4 search keys (all filter fields given, no output-data mode, no filter, with_data false); build_query_options: Lock/Type x Asc/Desc x with/without cursor, byte strings as lists of segments",
-          "outside": "byte encodings of keys and values, combinations of several filters, cells consumed by pool transactions, custom filters, prune, rich indexer"}
-ASSUMPTIONS = ["key and value byte encodings are injective (modelled as records)", "store reads see the committed state, batch writes become visible at commit", "no custom filter, no pool attached",
+          "outside": "byte encodings of keys and values, combinations of several filters on more than one row, custom filters, prune, rich indexer"}
+ASSUMPTIONS = ["key and value byte encodings are injective (modelled as records)", "store reads see the committed state, batch writes become visible at commit", "no custom filter; append/rollback without pool, queries with and without pool (the pool's answer per out-point is an environment symbol)",
                "query: the iterator yields the rows in key order; every transaction-index key ends with 17 bytes of coordinates (storage invariant established by append, m1); the request is within the request limit and does not time out"]
 TRUSTED = []
 LEVEL_TEXT = ("Decided on the real MIR of Indexer::append / rollback for bounded block scenarios: the rows written for a block are exactly the definition of the index (live cells by script, "
@@ -433,6 +433,6 @@ LEVEL_TEXT = ("Decided on the real MIR of Indexer::append / rollback for bounded
               "the row's own coordinates), the exact-length test and the block range, in scan order, grouped by transaction when asked, never more than the limit. get_cells answers exactly the scanned live-cell rows under the prefix that pass the (single) filter "
               "-- script prefix / length of the cell's other script, output data prefix / exact / partial, data length, capacity, block range, each a half-open range -- with the cell loaded by the row's own out-point; get_cells_capacity sums the capacities of exactly those rows and reports the newest header row. "
               "byte encodings, prune and histories longer than one append/rollback are outside and not claimed.")
-LEVEL_NOTE = "Partial claim (row-level append/rollback on bounded scenarios; get_transactions, get_cells and get_cells_capacity over two rows, one filter at a time). Filter combinations, encodings, cursors, pool overlay, prune, RocksDB, SQL back end: outside."
+LEVEL_NOTE = "Partial claim (row-level append/rollback on bounded scenarios; get_transactions, get_cells and get_cells_capacity over two rows, one filter at a time). Filter combinations over several rows, encodings, prune, RocksDB, SQL back end: outside."
 TECHNIQUE = "symbolic execution of rustc MIR (scenario store as environment, logged batch operations), decided by the executor + SMT (cvc5 + z3) for path feasibility"
 DESIGN_REF = "DESIGN.md section 4 (C18)"
